@@ -134,7 +134,7 @@ func execBuf(c bufCase, _ *kit.Env) kit.Outcome {
 
 	var model []elem
 
-	var snap []elem
+	var snap, snapModel []elem
 
 	haveSnap := false
 	full, restarts, refused := 0, 0, 0
@@ -252,6 +252,7 @@ func execBuf(c bufCase, _ *kit.Env) kit.Outcome {
 			}
 		case "snapshot":
 			snap = buf.Elements()
+			snapModel = append([]elem(nil), model...)
 			haveSnap = true
 		case "restore":
 			switch {
@@ -271,9 +272,15 @@ func execBuf(c bufCase, _ *kit.Env) kit.Outcome {
 					}
 				}
 
+				// a snapshot is the caller's: whatever happened to the buffer since
+				// (including later Elements() calls) must not have touched it
+				if !reflect.DeepEqual(append([]elem{}, snap...), append([]elem{}, snapModel...)) {
+					return fail(i, "snapshot-changed", "a slice returned by Elements() earlier now reads %v, it was %v", snap, snapModel)
+				}
+
 				buf.Restore(snap)
 
-				model = append([]elem(nil), snap...)
+				model = append([]elem(nil), snapModel...)
 				if len(snap) > 0 {
 					snap[0] = elem{ID: -7} // the buffer must have copied
 				}
